@@ -12,7 +12,8 @@ def rand_key(rng, used):
         if rng.random() < 0.75:
             k = "s" + hexb([rng.choice(b"abcdefgxyz_0123") for _ in range(rng.choice([1, 1, 2, 3, 8]))])
         else:
-            k = "i" + str(rng.choice([0, 1, 2, 5, 127, 128, 255, 256, 70000, -1, -32, -33, -200]))
+            k = "i" + str(rng.choice([0, 1, 2, 5, 127, 128, 255, 256, 70000, -1, -32, -33, -200, 65535, 2 ** 31 - 1, 2 ** 31, 2 ** 32 - 1,
+                                      2 ** 32, 2 ** 63 - 1, 2 ** 63, 2 ** 64 - 1, 2 ** 64 - 200, -2 ** 31, -2 ** 63, 2 ** 32 - 200]))
         if k not in used:
             used.add(k)
             return k
@@ -66,6 +67,31 @@ def rand_object(rng, depth, nkeys=None):
         entries.append((k, v))
         toks += [k] + v.toks
     return Node("map", toks, entries=entries)
+
+
+def key_variant(rng, k):
+    """the same integer key passed to the scope as int64_t (`i`), int32_t (`j`) or uint64_t (`u`)"""
+    if k[0] != "i":
+        return k
+    v = int(k[1:])
+    opts = []
+    if -2 ** 63 <= v < 2 ** 63: opts += ["i", "i"]
+    if -2 ** 31 <= v < 2 ** 31: opts.append("j")
+    if 0 <= v < 2 ** 64: opts.append("u")
+    return rng.choice(opts) + str(v)
+
+
+def key_twins(k):
+    """absent keys whose two's-complement image in some C++ integer type equals the stored integer key"""
+    if k[0] != "i":
+        return []
+    v = int(k[1:])
+    tw = []
+    if v >= 2 ** 63: tw.append("i" + str(v - 2 ** 64))
+    if 2 ** 31 <= v < 2 ** 32: tw.append("j" + str(v - 2 ** 32))
+    if v < 0: tw += ["u" + str(v + 2 ** 64)] + (["u" + str(v + 2 ** 32)] if v >= -2 ** 31 else [])
+    if 0 <= v < 2 ** 32: tw.append("u" + str(v + 2 ** 32))
+    return tw
 
 
 def other_ty(rng, ty):
@@ -124,8 +150,14 @@ def object_reqs(rng, node, ctx):
     extra = rng.choice([0, 0, 1, 3])
     for _ in range(extra):
         order.insert(rng.randrange(0, len(order) + 1), rng.choice(keys + ["s7a7a7a", "i999", "s-"]) if keys else "s7a7a")
+    present = {int(k[1:]) for k in keys if k[0] == "i"}
+    twins = [t for k in keys for t in key_twins(k) if int(t[1:]) not in present]
+    for t in twins:
+        if rng.random() < 0.7:
+            order.insert(rng.randrange(0, len(order) + 1), t)
     for k in order:
         v = lookup.get(k)
+        k = key_variant(rng, k)
         if rng.random() < 0.07:
             reqs.append("v")
         if v is None:
